@@ -243,6 +243,30 @@ fn bvcast_u8_to_usize(
   bv_us
 }
 
+#[cfg(feature = "verif-hooks")]
+impl GGM {
+  /// Verification hook: `(prefix bits in tree order, seed)` of every retained
+  /// node, and the bit strings recorded as punctured. Read-only.
+  #[allow(clippy::type_complexity)]
+  pub fn verif_retained_nodes(
+    &self,
+  ) -> (Vec<(Vec<bool>, Vec<u8>)>, Vec<Vec<bool>>) {
+    let nodes = self
+      .key
+      .prefixes
+      .iter()
+      .map(|(p, seed)| (p.bits.iter().map(|b| *b).collect(), seed.clone()))
+      .collect();
+    let punctured = self
+      .key
+      .punctured
+      .iter()
+      .map(|p| p.bits.iter().map(|b| *b).collect())
+      .collect();
+    (nodes, punctured)
+  }
+}
+
 #[cfg(test)]
 mod tests {
   use super::*;
